@@ -34,18 +34,34 @@ T2 == INSTANCE T2Sem
 VARIABLES tid, verdict
 vars == <<tid, verdict>>
 
+(* observations travel in units of 1/K; the comparison grid is G = 2K so that the implied
+   on-curve points of quadratic runs (midpoints) stay integral.  Thresholds in grid units:
+   fontTools 4 (= 1/512 unit: accepted for certain up to 3/2048, refused from 5/2048 on; the
+   float -> 1/K conversion of the harness costs at most 1 grid unit), HarfBuzz 32 (= 1/64: its
+   coordinates are 32-bit floats), the two observers against each other G/2 + 32 (they may
+   legitimately differ by the rounding conventions LsbRounded / AdvanceRounded of GlyfSem). *)
 Tol == Rat(1, 512)
 HbTol == Rat(1, 64)
 TriTol == Rat(33, 64)
+FtT == 4
+HbT == 32
+TriT(K) == K + 32
 
-(* ---- observed pen calls -> outline (contours of atoms) ------------------------------- *)
-ObsPt(q, K) == <<Rat(q[1], K), Rat(q[2], K)>>
-RECURSIVE QuadChainR(_, _, _, _)
-QuadChainR(p0, offs, p, i) ==
+(* a closed contour without on-curve point (qCurveTo(..., None)): through GlyfSem's ContourAtoms
+   in rationals, then onto the grid (exact: all values are multiples of 1/(2K)) *)
+GridAtomsOfAllOff(p, K) ==
+  LET a == ContourAtoms([i \in 1..Len(p) |-> <<Rat(p[i][1], K), Rat(p[i][2], K), 0>>])
+  IN [j \in 1..Len(a) |-> GridAtom(a[j], 2 * K)]
+
+(* ---- observed pen calls -> outline (contours of atoms) on the grid G = 2K ------------------ *)
+ObsPt(q, K) == <<2 * q[1], 2 * q[2]>>
+IMid(a, b) == (a + b) \div 2          \* exact: both are even
+RECURSIVE QuadChainI(_, _, _, _)
+QuadChainI(p0, offs, p, i) ==
   IF i > Len(offs) THEN <<>>
   ELSE LET e == IF i = Len(offs) THEN p
-                ELSE <<RMid(offs[i][1], offs[i + 1][1]), RMid(offs[i][2], offs[i + 1][2])>>
-           rest == QuadChainR(e, offs, p, i + 1)
+                ELSE <<IMid(offs[i][1], offs[i + 1][1]), IMid(offs[i][2], offs[i + 1][2])>>
+           rest == QuadChainI(e, offs, p, i + 1)
        IN << <<p0, offs[i], e>> >> \o rest
 RECURSIVE ObsWalk(_, _, _, _, _, _)
 ObsWalk(seq, i, p0, offs, K, acc) ==
@@ -55,7 +71,7 @@ ObsWalk(seq, i, p0, offs, K, acc) ==
   ELSE LET p == ObsPt(seq[i], K)
            n == Len(offs)
            atoms == IF n = 0 THEN << <<p0, p>> >>
-                    ELSE IF seq[i][3] = PP!TQCURVE THEN QuadChainR(p0, offs, p, 1)
+                    ELSE IF seq[i][3] = PP!TQCURVE THEN QuadChainI(p0, offs, p, 1)
                     ELSE << <<p0>> \o offs \o <<p>> >>     \* 1 control point: quadratic, 2: cubic
            a2 == acc \o atoms
        IN ObsWalk(seq, i + 1, p, <<>>, K, a2)
@@ -64,7 +80,7 @@ ObsWalk(seq, i, p0, offs, K, acc) ==
 ShapeAtoms(it, K) ==
   LET p == it.pts
       f == PP!FirstOn(p)
-  IN IF f = 0 THEN ContourAtoms([i \in 1..Len(p) |-> <<Rat(p[i][1], K), Rat(p[i][2], K), 0>>])
+  IN IF f = 0 THEN GridAtomsOfAllOff(p, K)
      ELSE LET rot == PP!RotateAfter(p, f)
               st == ObsPt(p[f], K)
           IN ObsWalk(rot, 1, st, <<>>, K, <<>>)
@@ -85,24 +101,27 @@ DevApplies(F, gi, k) == CASE k = 1 -> F.glyphs[gi].k = "c"
                           [] k = 2 -> UsesScaledOffset(F, gi)
                           [] k = 3 -> F.glyphs[gi].k = "c" /\ UsesScaledOffset(F, gi)
 
-MatchesRef(ref, obs, variable, tol) ==
+(* "bad" when the reference does not fit the integer grid (31 bits) *)
+MatchesRef(ref, obs, variable, T, K) ==
   \E s \in ShiftCandidates(ref.shift, variable) :
-     LET shifted == ShiftOutline(ref.atoms, s) IN SameOutline(shifted, obs, tol)
+     LET shifted == GridOutline(ShiftOutline(ref.atoms, s), 2 * K)
+     IN ~GridBad(shifted) /\ SameOutlineI(shifted, obs, T)
+RefGridBad(ref, K) == GridBad(GridOutline(ShiftOutline(ref.atoms, ref.shift), 2 * K))
 
 (* clauses of one case as a set of strings *)
 OutlineClauses(F, INF, gi, nloc, variable, ref, c, K) ==
   LET ft == ObsOutline(c.ft.calls, K)
       hasHb == c.hb.has = 1
       hb == IF hasHb THEN ObsOutline(c.hb.calls, K) ELSE [ok |-> FALSE, o |-> <<>>]
-      ftOK == ft.ok /\ MatchesRef(ref, ft.o, variable, Tol)
-      hbOK == hb.ok /\ MatchesRef(ref, hb.o, FALSE, HbTol)
+      ftOK == ft.ok /\ MatchesRef(ref, ft.o, variable, FtT, K)
+      hbOK == hb.ok /\ MatchesRef(ref, hb.o, FALSE, HbT, K)
   IN IF ~ft.ok THEN {"ft:pen-protocol"}
      ELSE IF ftOK THEN (IF hasHb /\ ~hbOK THEN {"hb:outline"} ELSE {})
      ELSE LET devs == {k \in 1..3 : DevApplies(F, gi, k) /\
                           LET r2 == Reference(F, INF, gi, nloc, DevOpts(k))
-                          IN r2.bad = "" /\ MatchesRef(r2, ft.o, variable, Tol)}
+                          IN r2.bad = "" /\ MatchesRef(r2, ft.o, variable, FtT, K)}
           IN IF devs # {} THEN {"ft:outline:dev:" \o DevNames[CHOOSE k \in devs : \A j \in devs : k <= j]}
-             ELSE IF hasHb /\ hb.ok /\ ~hbOK /\ SameOutline(ft.o, hb.o, TriTol) THEN {"oracle:outline"}
+             ELSE IF hasHb /\ hb.ok /\ ~hbOK /\ SameOutlineI(ft.o, hb.o, TriT(K)) THEN {"oracle:outline"}
              ELSE {"ft:outline"}
 
 AdvanceClauses(A, c) ==
@@ -122,7 +141,7 @@ GlyfCase(F, INF, gi, c, K) ==
            variable == c.loc # <<>>
            ref == Reference(F, INF, gi, nloc, SpecOpts)
        IN IF ref.bad # "" THEN {"skip:" \o ref.bad}
-          ELSE IF OutlineBad(ref.atoms) \/ PhBad(ref.ph) THEN {"skip:overflow"}
+          ELSE IF OutlineBad(ref.atoms) \/ PhBad(ref.ph) \/ RefGridBad(ref, K) THEN {"skip:overflow"}
           ELSE IF UsesMyMetrics(F, gi)
                   /\ LET own == Reference(F, INF, gi, nloc, [SpecOpts EXCEPT !.umm = FALSE])
                      IN own.ph[1][1] # ref.ph[1][1] \/ own.ph[2][1] # ref.ph[2][1]
@@ -182,16 +201,17 @@ CffCase(t, R0, RR, c) ==
                 ELSE RAdd(RInt(F.hmtx[1][1]), StoreEval(StoreOf(F.hvar.store), HvarIndex(F.hvar, F.glyphs[1].gid), nloc))
        IN IF \E r \in 1..Len(RR) : RR[r].err # "" \/ ~SameStructure(P0, PR[r]) THEN {"skip:cff2-structure"}
           ELSE IF \E r \in 1..Len(S) : RBad(S[r]) THEN {"skip:overflow"}
-          ELSE IF OutlineBad(ref.atoms) \/ RBad(A) THEN {"skip:overflow"}
+          ELSE IF OutlineBad(ref.atoms) \/ RBad(A) \/ GridBad(GridOutline(ref.atoms, 2 * t.K)) THEN {"skip:overflow"}
           ELSE IF c.ft.raised # "" THEN {"ft:raised"}
           ELSE LET ft == ObsOutline(c.ft.calls, t.K)
                    hasHb == c.hb.has = 1
                    hb == IF hasHb THEN ObsOutline(c.hb.calls, t.K) ELSE [ok |-> FALSE, o |-> <<>>]
-                   ftOK == ft.ok /\ SameOutline(ref.atoms, ft.o, Tol)
-                   hbOK == hb.ok /\ SameOutline(ref.atoms, hb.o, HbTol)
+                   rg == GridOutline(ref.atoms, 2 * t.K)
+                   ftOK == ft.ok /\ SameOutlineI(rg, ft.o, FtT)
+                   hbOK == hb.ok /\ SameOutlineI(rg, hb.o, HbT)
                    oc == IF ~ft.ok THEN {"ft:pen-protocol"}
                          ELSE IF ftOK THEN (IF hasHb /\ ~hbOK THEN {"hb:outline"} ELSE {})
-                         ELSE IF hasHb /\ hb.ok /\ ~hbOK /\ SameOutline(ft.o, hb.o, TriTol) THEN {"oracle:outline"}
+                         ELSE IF hasHb /\ hb.ok /\ ~hbOK /\ SameOutlineI(ft.o, hb.o, TriT(t.K)) THEN {"oracle:outline"}
                          ELSE {"ft:outline"}
                IN oc \cup AdvanceClauses(A, c)
 
